@@ -1,6 +1,12 @@
 use std::mem;
 use std::ptr;
+#[cfg(multiqueue2_verif)]
+use crate::verif_hooks::{AtomicUsize, Mutex};
+#[cfg(multiqueue2_verif)]
+use std::sync::atomic::Ordering;
+#[cfg(not(multiqueue2_verif))]
 use std::sync::atomic::{AtomicUsize, Ordering};
+#[cfg(not(multiqueue2_verif))]
 use std::sync::Mutex;
 
 use crate::alloc;
